@@ -278,6 +278,9 @@ func (c *StandardClass) initObjSlots(obj *StandardObject) {
 // LoadForm returns a list that can be evaluated to create the class or nil if
 // the class is a built in class.
 func (c *StandardClass) LoadForm() slip.Object {
+	if c.Final {
+		return nil
+	}
 	supers := make(slip.List, len(c.supers))
 	for i, super := range c.supers {
 		supers[i] = super
